@@ -87,6 +87,41 @@ def sig_of(b, upto=None):
     return cfg + ":" + ",".join(one(s) for s in steps)
 
 
+def generate(chk):
+    quick = chk.tier == "quick"
+    # The behaviours are a function of the specification alone (not of /repo): generating the
+    # tour (3*10^5 transitions, ~200 MB of JSON) and selecting from it is cached under
+    # .build/cache, keyed by the spec/selection sources, tier and seed. The exhaustive model
+    # check above and everything below (replay, validation) is never cached.
+    import hashlib
+    import os
+    h = hashlib.sha256()
+    for f in sorted(os.listdir(vf.SPEC)):
+        if f.startswith("ClientStream"):
+            h.update(open(os.path.join(vf.SPEC, f), "rb").read())
+    h.update(open(__file__, "rb").read())
+    h.update(f"{chk.tier}:{chk.seed}".encode())
+    cdir = os.path.join(vf.BUILD, "cache")
+    os.makedirs(cdir, exist_ok=True)
+    cpath = os.path.join(cdir, f"stream-{h.hexdigest()[:20]}.json")
+    if os.path.exists(cpath):
+        cached = json.load(open(cpath))
+        behs, gen = cached["behs"], cached["gen"]
+        gen["from_cache"] = True
+    else:
+        tour, st = vf.tlc_gen("ClientStreamGen.tla", "ClientStreamGenTour.cfg" if quick else "ClientStreamGenTourFull.cfg",
+                              keep_prefixes=True, steps_key=None, heap="8g", timeout=3600)
+        chosen, sel = select(tour, 2500 if quick else 40000, chk.seed, coarse=quick)
+        behs = []
+        for b in chosen:
+            behs.append({"cfg": b["cfg"], "steps": b["steps"] + epilogue(b["cfg"], b["key"]["endSock"])})
+        gen = {"tour": st, "selection": sel, "from_cache": False}
+        json.dump({"behs": behs, "gen": gen}, open(cpath + ".tmp", "w"))
+        os.replace(cpath + ".tmp", cpath)
+    chk.cov["generation"] = gen
+    return behs
+
+
 def run_stream(chk, prefix, replay=None):
     quick = chk.tier == "quick"
     # 1. design level: exhaustive model check of the client stream machine (all 24 configurations,
@@ -96,15 +131,8 @@ def run_stream(chk, prefix, replay=None):
     # 2. behaviours
     if replay:
         behs = [b for b in vf.read_ndjson(replay) if "steps" in b]
-        stats = {}
     else:
-        tour, st = vf.tlc_gen("ClientStreamGen.tla", "ClientStreamGenTour.cfg" if quick else "ClientStreamGenTourFull.cfg",
-                              keep_prefixes=True, steps_key=None, heap="8g", timeout=3600)
-        chosen, sel = select(tour, 2500 if quick else 40000, chk.seed, coarse=quick)
-        behs = []
-        for b in chosen:
-            behs.append({"cfg": b["cfg"], "steps": b["steps"] + epilogue(b["cfg"], b["key"]["endSock"])})
-        chk.cov["generation"] = {"tour": st, "selection": sel}
+        behs = generate(chk)
     bpath = chk.path("behaviours.ndjson")
     vf.write_ndjson(bpath, behs)
     # 3. replay over loopback sockets
